@@ -171,7 +171,7 @@ func (c *Ctx) callSitesOf(fn *ssa.Function) []*ssa.Call {
 func factsAt(c *Ctx, fn *ssa.Function, b *ssa.BasicBlock) (*evalFrame, []fact) {
 	var build func(fn *ssa.Function, depth int) (*evalFrame, []fact)
 	build = func(fn *ssa.Function, depth int) (*evalFrame, []fact) {
-		if depth < 3 && fn.Object() != nil && !fn.Object().Exported() {
+		if depth < 3 && isLocalHelper(fn) {
 			if sites := c.callSitesOf(fn); len(sites) == 1 {
 				pfr, pf := build(sites[0].Parent(), depth+1)
 				pf = append(pf, domFacts(pfr, sites[0].Block())...)
@@ -183,4 +183,51 @@ func factsAt(c *Ctx, fn *ssa.Function, b *ssa.BasicBlock) (*evalFrame, []fact) {
 	fr, fs := build(fn, 0)
 	fs = append(fs, domFacts(fr, b)...)
 	return fr, expandFacts(c, fs, 0)
+}
+
+// isLocalHelper: an unexported function or a function literal: all its callers are in the library.
+func isLocalHelper(fn *ssa.Function) bool {
+	if fn.Object() != nil {
+		return !fn.Object().Exported()
+	}
+	return fn.Parent() != nil
+}
+
+// factCtx: one way control reaches a block: the frame chain and what is known there.
+type factCtx struct {
+	fr    *evalFrame
+	facts []fact
+}
+
+// factsAtAll: like factsAt, once per chain of call sites when a helper or function literal on the way is
+// called from several places (what a rule needs must then hold in every context).
+func factsAtAll(c *Ctx, fn *ssa.Function, b *ssa.BasicBlock) []factCtx {
+	type partial struct {
+		fr *evalFrame
+		fs []fact
+	}
+	var build func(fn *ssa.Function, depth int) []partial
+	build = func(fn *ssa.Function, depth int) []partial {
+		if depth < 3 && isLocalHelper(fn) {
+			if sites := c.callSitesOf(fn); len(sites) >= 1 && len(sites) <= 4 {
+				var out []partial
+				for _, site := range sites {
+					for _, p := range build(site.Parent(), depth+1) {
+						fs := append(append([]fact{}, p.fs...), domFacts(p.fr, site.Block())...)
+						out = append(out, partial{&evalFrame{fn: fn, parent: p.fr, call: site}, fs})
+					}
+				}
+				if len(out) > 0 && len(out) <= 8 {
+					return out
+				}
+			}
+		}
+		return []partial{{&evalFrame{fn: fn}, nil}}
+	}
+	var out []factCtx
+	for _, p := range build(fn, 0) {
+		fs := append(append([]fact{}, p.fs...), domFacts(p.fr, b)...)
+		out = append(out, factCtx{p.fr, expandFacts(c, fs, 0)})
+	}
+	return out
 }
